@@ -335,3 +335,12 @@ Print Assumptions C02_checked_reader_total.
 Theorem C02_checked_writer_total : forall d so ro p, write_vtt_c d so ro <> Panic p.
 Proof. exact write_vtt_c_no_panic. Qed.
 Print Assumptions C02_checked_writer_total.
+
+(* ---- the model's literals are the constants of the Go source (Proofs/ConstTie.v, Gen/Consts.v regenerated from the
+   repository on every run by tools/genconsts): every WebVTT keyword, separator, tag and name the model spells out equals the
+   package-level constant, struct tag or bidirectional-map entry of the source, or occurs among the string literals of
+   the function the model transcribes.  A closed boolean computed by the kernel. ---- *)
+From Astisub Require Proofs.ConstTie.
+Theorem C02_constants_from_source : ConstTie.all ConstTie.VttTie.ties = true.
+Proof. exact ConstTie.VttTie.consts_from_source. Qed.
+Print Assumptions C02_constants_from_source.
